@@ -412,6 +412,8 @@ class Evaluator(object):
             return Struct([self.symbolic(e, "%s.%d" % (name, i), leaves, big_arrays_as_terms) for i, e in enumerate(t["elems"])])
         if k == "array":
             n = t["len"]
+            if n is None:
+                raise Unsupported("array of generic length %s (an uninstantiated generic function)" % t["s"])
             ew = self.scalar_width(self.strip_newtypes(t["elem"]))
             if ew is not None and (n > 64 and big_arrays_as_terms):
                 base = T.arr_sym(name, n, ew)
